@@ -149,6 +149,10 @@ func (Engine) Gen(seed uint64, idx int, tier string) interface{} {
 	if r.Chance(1, 10) {
 		nt = 1
 	}
+	big := tier == "thorough" && r.Chance(1, 3)
+	if big {
+		nt = 4 + r.Intn(3)
+	}
 	id := 0
 	closes := 0
 	kinds := []string{"run", "run", "run", "modinit", "modsrc", "regmod", "resolve", "runfile", "close", "close", "modsrc-bad", "modbuf-bad", "modbuf-notcode"}
@@ -156,6 +160,9 @@ func (Engine) Gen(seed uint64, idx int, tier string) interface{} {
 	for t := 0; t < nt; t++ {
 		var ts TaskSpec
 		no := 1 + r.Intn(3)
+		if big {
+			no = 2 + r.Intn(5)
+		}
 		for i := 0; i < no; i++ {
 			op := Op{Kind: kinds[r.Intn(len(kinds))], ID: id}
 			id++
@@ -384,6 +391,7 @@ func (e Engine) Exec(sci interface{}, opt harness.ExecOpts) *harness.Outcome {
 	}
 	simfs.Install(fs)
 	defer simfs.Install(nil)
+	defer func() { simfs.OnOp = nil }()
 	ctx := py.NewContext(py.ContextOpts{SysArgs: []string{"sim"}, SysPaths: []string{"/simcwd/lib"}})
 	r := &run{ctx: ctx}
 	if !sc.LateDone {
@@ -426,6 +434,13 @@ func (e Engine) Exec(sci interface{}, opt harness.ExecOpts) *harness.Outcome {
 		return out
 	}
 
+	// every access to the file system behind the resolver is work done on
+	// behalf of an admitted request: it must not happen after Close returned
+	simfs.OnOp = func(op, name string) {
+		if simrt.Active() {
+			r.ev("fs", 0, op)
+		}
+	}
 	var sched simrt.Scheduler
 	if opt.UseSched {
 		sched = simrt.NewReplaySched(opt.Schedule)
@@ -550,6 +565,12 @@ func (e Engine) Exec(sci interface{}, opt harness.ExecOpts) *harness.Outcome {
 			delete(inflight, ev.ID)
 			if firstCloseRet > 0 {
 				out.Violate("I3-body-after-close-returned", "body-after-close", "body of request %d still running (seq %d) after Close returned (seq %d)", ev.ID, ev.Seq, firstCloseRet)
+			}
+		case "fs":
+			if firstCloseRet > 0 {
+				out.Violate("I3-work-after-close-returned", "fs-after-close", "the resolver accessed the file system (seq %d, %s) after Close returned (seq %d): a request was still executing or was admitted afterwards", ev.Seq, ev.Data, firstCloseRet)
+			} else if firstCB > 0 {
+				out.Violate("I6-admitted-after-callbacks", "fs-after-callback", "the resolver accessed the file system (seq %d) after the close callbacks began (seq %d)", ev.Seq, firstCB)
 			}
 		case "close.invoke":
 			closeInvoked = true
@@ -721,6 +742,8 @@ func shortKind(k string) string {
 		return "w"
 	case "done.woke":
 		return "W"
+	case "fs":
+		return "f"
 	}
 	return "?"
 }
